@@ -206,7 +206,9 @@ def gen_case(rnd, inline=False):
         emit(rnd.choice([' ', '\n', '{} ']))
     w, st = word('u')
     exp.append((w, 'exact', st, st))
-    c.D = ''.join(s + '\n' for s, _ in defs_src)
+    # (definition lines may be indented: a line holding nothing but definitions leaves nothing, not even blanks)
+    indent = rnd.choice(['', '', '  ', '\t', '    '])
+    c.D = ''.join((indent if i else '') + s + '\n' for i, (s, _) in enumerate(defs_src))
     c.B = ''.join(parts)
     c.exp = exp
     c.inline = inline
@@ -463,7 +465,9 @@ class C09(core.Check):
             seqs = []
             for ((tt, pp), ee), sh in zip(runs, (len(D), 0, len(pre))):
                 seqs.append([(ch, q if q <= len(prefix) else q - sh) for ch, q in zip(tt, pp) if not ch.isspace()])
-            if any(r[1] for r in runs) or not (seqs[0] == seqs[1] == seqs[2]) or 'u0bz' not in runs[2][0][0]:
+            texts = [r[0][0] for r in runs]
+            if any(r[1] for r in runs) or not (seqs[0] == seqs[1] == seqs[2]) or 'u0bz' not in runs[2][0][0] \
+                    or not (texts[0] == texts[1] == texts[2]):
                 detail.update(mid_document=[r[0][0] for r in runs], stderr=[r[1] for r in runs])
                 which = 'defs' if seqs[0] != seqs[1] else 'ltinput'
                 return dict(ok=False, nt=True, key='routes-differ:mid-document:' + which, cnt=cnt, obs=None, detail=detail)
